@@ -48,12 +48,16 @@ class AnchorEncode(nodes.Node):
         # reproduce that bug here...
         import urllib.parse
 
-        encoded_argument = (
-            urllib.parse.quote_plus(arg.encode("utf-8"), ":")
-            .replace("%", ".")
-            .replace("+", "_")
-        )
-        res.append(encoded_argument)
+        from mwlib.utils.uniq import skip_markers
+
+        def encode(txt):
+            return (
+                urllib.parse.quote_plus(txt.encode("utf-8"), ":")
+                .replace("%", ".")
+                .replace("+", "_")
+            )
+
+        res.append(skip_markers(encode, arg))
 
 
 def _rel2abs(rel, base):
